@@ -494,7 +494,7 @@ pub fn run_one(c: &mut Case, opts: &GenOpts) {
 pub fn run(ctx: &Ctx, evidence: Option<&PathBuf>) -> i32 {
     let opts = GenOpts { max_requests: 5, extra_pct: 20, big: ctx.scale == Scale::Full, keep_conn_pct: 75, no_begin_extras: false };
     ctx.run_fixed("directed", ctx.dn(300), |c| run_one(c, &opts));
-    let n = ctx.size(15_000, 1_500_000);
+    let n = ctx.size3(15_000, 1_500_000, 5);
     ctx.run_cases("connections", n, |c| run_one(c, &opts));
     ctx.gate("connections_checked", 200);
     ctx.gate("connections_reused", 50);
